@@ -59,10 +59,11 @@ theorem Inv.newOK_of_lister {s : State} (h : Inv s) (p : Pod) (hp : p ∈ Tbl.va
   trivial
 
 theorem syncPodIPs_spec (s : State) (h : Inv s) :
-    Inv (syncPodIPs s).1 ∧ (syncPodIPs s).1.pods = s.pods ∧ (syncPodIPs s).1.plog = s.plog := by
+    Inv (syncPodIPs s).1 ∧ ((syncPodIPs s).1.pods = s.pods ∧ (syncPodIPs s).1.admin = s.admin) ∧
+      (syncPodIPs s).1.plog = s.plog := by
   unfold syncPodIPs
   have := syncPods_spec (Tbl.vals s.vPods) s h (fun p hp => h.newOK_of_lister p hp)
-  exact ⟨this.1, this.2.1.pods, this.2.2⟩
+  exact ⟨this.1, ⟨this.2.1.pods, this.2.1.admin⟩, this.2.2⟩
 
 theorem inv_syncPodIPs (s : State) (f : Nat) (h : Inv s) : Inv (step Facts.good s (.syncPodIPs f)).1 :=
   (syncPodIPs_spec _ (inv_withFaults s f 0 h)).1
